@@ -23,6 +23,8 @@ EXPLANATION += ' A64-RT-PRESERVE (18 call sites), A64-RCPLIT (12 literal registe
 
 TECHNIQUE += '; def-use, backward liveness and a frame-slot value-preservation analysis over the disassembly of the hand-written runtime assembled for the target'
 
+EXPLANATION += ' A64-RT-STOREORDER, CTOR-INIT.'
+
 
 def run(ctx, R):
     FI = astq.Facts(ctx, 'K0')
@@ -54,3 +56,4 @@ def run(ctx, R):
     rtpreserve.rule_const(ctx, R, 'a64')
     a64dsread.rule_dsread(ctx, R)
     genreset.rule_ctor_init(ctx, R, 'a64')
+    rtpreserve.rule_store_order(ctx, R, 'a64')
